@@ -183,7 +183,7 @@ func init() {
 		Technique:   "bounded-exhaustive configuration enumeration on the implementation with a set-equality reference oracle",
 		Rule:        "enumerate lists of label declarations; oracle: success iff set-equal and no failure; zero bytes / zero Write calls on refusal; decryptability on success. distinct_nontrivial counts distinct lists.",
 		Assumptions: commonAssume,
-		Runs:        []Run{{Pkg: hp + "c11", Variant: "real"}},
+		Runs:        []Run{{Pkg: hp + "c11", Variant: "real", NeedBins: []NeedBin{{Env: "VERIF_PLUGINSIM", Variant: "real", Pkg: "internal/zzverif/pluginsim"}, {Env: "VERIF_AGE_BIN", Variant: "real", Pkg: "cmd/age"}}}},
 	}
 }
 
